@@ -19,6 +19,10 @@
                                                  rows, then INSERT INTO t SELECT * FROM t with p partitions, each
                                                  partition run to completion in the given order
                                                  -> total <rows in table> count <sum of rows_inserted> | stuck
+     (bulk t|f segsz cap k n bs)                 chunk level (Storage.bulk / batches_of): a table loaded with rows 1..k in
+                                                 batches of cap rows, then one appender appends rows k+1..k+n in batches of
+                                                 bs rows (t: append_batch as written, f: the `input_offset = copy_count`
+                                                 variant) -> count <n> rows lo-hi*mult,... (sorted multiset, run-length coded)
      (failinsert segsz cap nbatches)             one partition appends nbatches batches of cap rows and stops
                                                  (no finalize) -> visible <rows> *)
 
@@ -136,6 +140,34 @@ let storage () =
                  print_endline (Printf.sprintf "total %s count %d complete %b segments %d"
                                   (string_of_n (total_rows c)) (int_of_nat (insert_count c)) (complete c)
                                   (List.length c.segs))))
+         | [A "bulk"; acc; segsz; cap; k; n; bs] ->
+           let capi = int_of_string (atom cap) and ki = int_of_string (atom k) and ni = int_of_string (atom n) in
+           let bsi = int_of_string (atom bs) and sz = nat_of_int (int_of_string (atom segsz)) in
+           let capn = nat_of_int capi in
+           let pre = batches_of (nat_of_int (ki + 1)) capn (iotaN (n_of_int 1) (nat_of_int ki)) in
+           let nw = batches_of (nat_of_int (ni + 1)) (nat_of_int bsi) (iotaN (n_of_int (ki + 1)) (nat_of_int ni)) in
+           (match bulk true capn sz [] [] pre with
+            | None -> print_endline "stuck"
+            | Some sg1 ->
+              (match bulk (atom acc = "t") capn sz sg1 [] nw with
+               | None -> print_endline "stuck"
+               | Some sg2 ->
+                 let ids = List.sort compare (List.map int_of_n (List.concat sg2)) in
+                 (* run-length print: maximal runs lo..hi of consecutive ids all with the same multiplicity *)
+                 let rec groups acc = function
+                   | [] -> List.rev acc
+                   | x :: r -> (match acc with
+                       | (y, m) :: a when y = x -> groups ((y, m + 1) :: a) r
+                       | _ -> groups ((x, 1) :: acc) r) in
+                 let g = groups [] ids in
+                 let rec runs acc = function
+                   | [] -> List.rev acc
+                   | (x, m) :: r -> (match acc with
+                       | (lo, hi, m') :: a when hi + 1 = x && m' = m -> runs ((lo, x, m) :: a) r
+                       | _ -> runs ((x, x, m) :: acc) r) in
+                 let rs = runs [] g in
+                 print_endline (Printf.sprintf "count %d rows %s" (List.length ids)
+                                  (String.concat "," (List.map (fun (lo, hi, m) -> Printf.sprintf "%d-%d*%d" lo hi m) rs)))))
          | [A "failinsert"; segsz; cap; nb] ->
            let capi = int_of_string (atom cap) in
            let k = { segsz = nat_of_int (int_of_string (atom segsz)); cap = nat_of_int capi; ocap = nat_of_int capi } in
